@@ -48,14 +48,18 @@ func (rt *runtime) cmplEvaluateNodeExpression(node nodeExpression) Value {
 		return rt.cmplEvaluateNodeDotExpression(node)
 
 	case *nodeFunctionLiteral:
-		local := rt.scope.lexical
-		if node.name != "" {
-			local = rt.newDeclarationStash(local)
+		if node.name == "" {
+			return objectValue(rt.newNodeFunction(node, rt.scope.lexical))
 		}
 
+		// The name of a function expression is an immutable binding in a
+		// scope of its own (ES5 13).
+		local := rt.newDeclarationStash(rt.scope.lexical)
 		value := objectValue(rt.newNodeFunction(node, local))
-		if node.name != "" {
-			local.createBinding(node.name, false, value)
+		local.property[node.name] = dclProperty{
+			value:    value,
+			mutable:  false,
+			readable: true,
 		}
 		return value
 
